@@ -221,6 +221,42 @@ def shrink(c):
     return c
 
 
+def invalid_references():
+    """Invalid PIVOT BY references must be rejected at compile time with CompilationError."""
+    t = impl.make_table('t', [('a', int), ('b', int), ('c', int), ('d', int)], [(1, 1, 1, 1), (1, 2, 3, 4), (2, 1, 5, 6)])
+    conn = impl.connection({'t': t})
+    cases = [
+        ('SELECT a, b, sum(c) AS s FROM #t GROUP BY a, b PIVOT BY 0, 2', 'position 0'),
+        ('SELECT a, b, sum(c) AS s FROM #t GROUP BY a, b PIVOT BY 1, 4', 'position n+1'),
+        ('SELECT a, sum(c) AS s FROM #t GROUP BY a, b PIVOT BY 1, 3', 'position of a hidden GROUP BY target'),
+        ('SELECT a, sum(c) AS s FROM #t GROUP BY a, b PIVOT BY 3, 1', 'position of a hidden GROUP BY target (first)'),
+        ('SELECT a, b, sum(c) AS s FROM #t GROUP BY a, b ORDER BY sum(d) PIVOT BY 1, 4', 'position of a hidden ORDER BY target'),
+        ('SELECT a, b, sum(c) AS s FROM #t GROUP BY a, b HAVING count(*) > 0 PIVOT BY 1, 4', 'position of the hidden HAVING target'),
+        ('SELECT a, b, sum(c) AS s FROM #t GROUP BY a, b PIVOT BY a, a', 'same column twice'),
+        ('SELECT a, b, sum(c) AS s FROM #t GROUP BY a, b PIVOT BY 1, 1', 'same position twice'),
+        ('SELECT a, b, sum(c) AS s FROM #t GROUP BY a, b PIVOT BY a, s', 'second column not grouped (aggregate)'),
+        ('SELECT a, b, sum(c) AS s FROM #t GROUP BY a, b PIVOT BY a, zz', 'unknown name'),
+        ('SELECT a, b, c FROM #t PIVOT BY a, b', 'query does not aggregate'),
+    ]
+    bad = []
+    for sql, what in cases:
+        try:
+            conn.execute(sql).fetchall()
+            bad.append((sql, what, 'accepted and executed'))
+        except impl.beanquery.CompilationError:
+            pass
+        except Exception as e:  # noqa: BLE001
+            bad.append((sql, what, f'{type(e).__name__}: {e}'))
+    # valid counterparts stay accepted
+    for sql in ('SELECT a, b, sum(c) AS s FROM #t GROUP BY a, b PIVOT BY 1, 2', 'SELECT a, b, sum(c) AS s FROM #t GROUP BY a, b PIVOT BY b, a',
+                'SELECT sum(c) AS s, b, a FROM #t GROUP BY a, b PIVOT BY 3, 2'):
+        try:
+            conn.execute(sql).fetchall()
+        except Exception as e:  # noqa: BLE001
+            bad.append((sql, 'valid reference', f'rejected: {type(e).__name__}: {e}'))
+    return len(cases) + 3, bad
+
+
 def run(tier, rng):
     n = 1200 if tier == 'quick' else 15000
     cases = [gen_case(rng) for _ in range(n)]
@@ -255,8 +291,12 @@ def run(tier, rng):
             violations.append(core.Violation('pivot', f'{statement(small)} over rows {small["rows"]}: {judge(small, sio[0], sm[0])}',
                                              {'case': small, 'statement': statement(small), 'impl': sio[0], 'model': sm[0]},
                                              signature=sig))
+    ninv, ibad = invalid_references()
+    for sql, what, got in ibad[:3]:
+        violations.append(core.Violation('pivot-reference', f'{sql} ({what}): {got}; expected CompilationError' if what != 'valid reference' else f'{sql}: {got}',
+                                         {'sql': sql, 'what': what, 'got': got}, signature='pivot-reference:' + sql))
     cov = {
-        'evaluations': len(cases), 'distinct_nontrivial': nontrivial,
+        'evaluations': len(cases) + ninv, 'distinct_nontrivial': nontrivial, 'invalid_reference_cases': ninv,
         'rule': 'random tables (two key columns of any type with 3-value domains, NULL keys in a third of the tables, int/decimal '
                 'value columns, 0-12 rows) x SELECT <a, b, 1-3 aggregates in any order> GROUP BY a, b PIVOT BY (a,b)|(b,a) by name or '
                 'position; the model pivots the implementation\'s un-pivoted result; non-trivial = distinct case with >=2 keys and >=2 pivoted rows',
